@@ -56,11 +56,11 @@ theorem C09_after_pubrec (s : Server) (i id rc : Nat) (m : Msg) (hi : i < s.objs
   unfold processPubrec
   have h1 : ¬ rc ≥ 0x80 := by omega
   simp only [hk, Option.isNone_some, Bool.false_eq_true, if_false, h1, decide_false, hv, Bool.not_true, Bool.or_self]
-  rw [getObj_setObj _ _ _ hi]
   have key : ∀ (c : Client) (a : Msg), a.id = id → a.type = 6 → (flGet (flSet c a).1 id).map (·.type) = some 6 := by
     intro c a hid ht
     rw [← hid, C09_stored]; simp [ht]
-  exact key _ _ rfl rfl
+  -- the PUBREL write may fail (dead connection): the record is stored either way
+  split <;> (rw [getObj_setObj _ _ _ hi]; exact key _ _ rfl rfl)
 
 /-- an acknowledged message is removed and therefore never resent -/
 theorem C09_acked_gone (c : Client) (id : Nat) : flGet (flDelete c id).1 id = none := C08_pubrel_releases c id
